@@ -318,7 +318,17 @@ func pressure(rng *rand.Rand, u *model.Universe, m *model.Model, mo *monitor) *m
 	p := strings.Split(k, "\x00")
 	repo, tag := p[0], p[1]
 	o := mo.tags[k]
-	switch rng.IntN(6) {
+	switch rng.IntN(7) {
+	case 6:
+		if o.data != nil {
+			// the tagged manifest's bytes again, untagged or under another tag, under a media type
+			// the registry cannot parse: must not unprotect what the tag references
+			other := ""
+			if rng.IntN(2) == 0 {
+				other = "retag"
+			}
+			return &model.Op{Kind: "PushManifest", Repo: repo, Tag: other, Data: o.data, MediaType: "application/x-retyped"}
+		}
 	case 0:
 		mt := u.NewManifest(rng, m, repo)
 		return &model.Op{Kind: "PushManifest", Repo: repo, Tag: tag, Data: mt.Data, MediaType: mt.MediaType}
@@ -453,7 +463,7 @@ func main() {
 	run := evid.Start("C14", "exploration")
 	run.SetRule("cases: histories of all Interface methods (a) through ReadOnly over a populated registry, (b) through Immutable, (c) on ocimem with ImmutableTags, the latter two with extra operations aimed at observed tags and at what they reference; after EVERY call the monitor re-resolves every tag it has observed and re-reads everything it knows to be present/protected; (d) concurrent rounds of 8–16 goroutines on ocimem ImmutableTags under the race detector. " +
 		"distinct_nontrivial = distinct (mode, method, outcome class) + concurrent configurations; trivial = none.")
-	run.Assume("descriptors inside generated manifests are truthful; a subject is not counted among what must remain retrievable (it may dangle)")
+	run.Assume("descriptors inside generated manifests state the media type the child was first pushed with; a subject is not counted among what must remain retrievable (it may dangle)")
 	run.Assume("in immutable-tags mode the protected set of a tag is what it transitively referenced AND was present when the tag was first observed")
 
 	n := run.N(800, 20000)
